@@ -175,6 +175,14 @@ def run(model: RepoModel, rep, tier: str):
     from .c10 import check_summary_accumulates
     check_summary_accumulates(model, rep, "C08.R7", declare=True)
     _r8_value_plumbing(model, rep)
+    # ------------------------------------------------------------------ R9 field maps of objects that cross a call
+    from ..generic2 import check_side_pairing
+    from .c09 import check_copy_on_write
+    rep.rule("C08.R9", "an object's field map survives a call: when a callee's summary is merged into the caller's argument state the summary "
+                       "side and the argument side are not crossed, and the resolver that refreshes states to their newest versions writes the "
+                       "refreshed field/element maps into the copy it creates, never into the state it copied from", 6)
+    check_side_pairing(model, rep, "C08.R9", ["core/stmt_states.py", "core/global_stmt_states.py", "core/resolver.py"])
+    check_copy_on_write(model, rep, "C08.R9", [c for c in model.module("core/resolver.py").classes.values() if c.name == "Resolver"])
     from ..generic import check_accumulators
 
     def _widening(x, guards, pre, fnode=None):
@@ -310,7 +318,7 @@ def _r8_value_plumbing(model: RepoModel, rep):
     """C08.R8: three small places where a value or an index is carried from one representation to another; each must be total."""
     rep.rule("C08.R8", "values are carried over unchanged: a string constant is unquoted by position (one character at each end), never by "
                        "strip/replace; relocating a callee's indexes into the global space skips only the sentinel -1; the newest versions of "
-                       "a state are all its reaching definitions (the held index alone is used only when none reaches)", 3)
+                       "a state are all its reaching definitions (the held index alone is used only when none reaches)", 4)
     # (a) unquoting
     du = model.module("basics/stmt_def_use_analysis.py")
     f = next((c.methods["adjust_constant_string"] for c in du.classes.values() if "adjust_constant_string" in c.methods), None)
@@ -331,6 +339,33 @@ def _r8_value_plumbing(model: RepoModel, rep):
         rep.holds("C08.R8", key, du.rel, slices[0].lineno, f"`{norm(slices[0].value)}`")
     else:
         rep.unknown("C08.R8", key, du.rel, f.node.lineno, "unquoting not recognised")
+    # (a') the length guard admits the shortest quoted text: two quote characters around nothing
+    if ok_slice:
+        import operator as _op
+        OPS = {ast.Gt: _op.gt, ast.GtE: _op.ge, ast.Lt: _op.lt, ast.LtE: _op.le, ast.Eq: _op.eq, ast.NotEq: _op.ne}
+        fcfg = cfg_of(f.node)
+        r0 = next(r for r in slices if isinstance(r.value.slice.lower, ast.Constant))
+        key2 = "basics/stmt_def_use_analysis.py::adjust_constant_string::the empty string literal is unquoted too"
+        verdict = None
+        for atom, truth in fcfg.conditions_at(fcfg.node(r0)):
+            if isinstance(atom, ast.Compare) and len(atom.ops) == 1 and type(atom.ops[0]) in OPS:
+                l, r = atom.left, atom.comparators[0]
+                is_len = lambda x: isinstance(x, ast.Call) and call_name(x) == "len" and x.args and isinstance(x.args[0], ast.Name) and x.args[0].id == p
+                if is_len(l) and isinstance(r, ast.Constant) and isinstance(r.value, int):
+                    holds_at_2 = OPS[type(atom.ops[0])](2, r.value)
+                elif is_len(r) and isinstance(l, ast.Constant) and isinstance(l.value, int):
+                    holds_at_2 = OPS[type(atom.ops[0])](l.value, 2)
+                else:
+                    continue
+                if holds_at_2 != truth:
+                    verdict = atom
+        if verdict is not None:
+            rep.violation("C08.R8", key2, du.rel, verdict.lineno,
+                          f"the unquoting `{norm(r0.value)}` removes two characters but is guarded by `{norm(verdict)}`, which excludes a text of "
+                          f"exactly two characters: the empty string literal keeps its quotes, so the abstract value of `s = \"\"` is a "
+                          f"two-character string and `\"\" + x`, `len(\"\")`, comparisons with it are computed wrongly")
+        else:
+            rep.holds("C08.R8", key2, du.rel, r0.lineno, "every length test on the way to the slice admits length 2")
     # (b) index relocation
     gs = model.module("core/global_semantics.py")
     g = next((c.methods["adjust_index_of_status_space"] for c in gs.classes.values() if "adjust_index_of_status_space" in c.methods), None)
